@@ -57,7 +57,7 @@ MC_CFG = """SPECIFICATION Spec
 CONSTANTS
   NL = %(nl)d
   Kinds <- MCKinds
-  Scripts <- MCScripts
+  Scripts <- %(scripts)s
   BufCap = %(cap)d
   Elem4 = 1
   Elem6 = 1
@@ -125,30 +125,37 @@ def main():
     vh = vlib.build_vh("pauselock")
     with vlib.Scratch("verif-c21-") as sc:
         # ---- M (+ negative model run) and the generators, concurrently
-        mcs = [("PauseLockMC cap=2", dict(nl=2, cap=2, rounds=1, bug="FALSE"))]
+        mcs = [("PauseLockMC cap=2", dict(nl=2, cap=2, rounds=1, bug="FALSE", scripts="MCScripts" if thorough else "MCScriptsQuick"))]
         if thorough:
-            mcs += [("PauseLockMC cap=1", dict(nl=2, cap=1, rounds=1, bug="FALSE")),
-                    ("PauseLockMC 1 holder x 3 rounds", dict(nl=1, cap=2, rounds=3, bug="FALSE"))]
+            mcs += [("PauseLockMC cap=1", dict(nl=2, cap=1, rounds=1, bug="FALSE", scripts="MCScripts")),
+                    ("PauseLockMC 1 holder x 3 rounds", dict(nl=1, cap=2, rounds=3, bug="FALSE", scripts="MCScripts"))]
         gens = [("PauseLockGen 2 holders", dict(nl=2, rounds=1, scripts="GenScriptsAll" if thorough else "GenScriptsQuick"))]
         if thorough:
             gens += [("PauseLockGen 1 holder x 3 rounds", dict(nl=1, rounds=3, scripts="GenScriptsRounds"))]
         jobs = []
         for label, c in mcs:
-            jobs.append(lambda c=c: vlib.tlc("pauselock", "PauseLockMC", {"cfg_text": MC_CFG % c}, coverage=True, workers=4,
-                                             scratch=sc, timeout=1500))
-        jobs.append(lambda: vlib.tlc("pauselock", "PauseLockMC", {"cfg_text": MC_CFG % dict(nl=2, cap=2, rounds=1, bug="TRUE")},
+            jobs.append(lambda c=c: vlib.tlc("pauselock", "PauseLockMC", {"cfg_text": MC_CFG % c}, workers=4, scratch=sc, timeout=1500))
+        jobs.append(lambda: vlib.tlc("pauselock", "PauseLockMC", {"cfg_text": MC_CFG % dict(nl=2, cap=2, rounds=1, bug="TRUE", scripts="MCScriptsQuick")},
                                      workers=2, scratch=sc, timeout=900))
         for label, c in gens:
             jobs.append(lambda c=c: vlib.tlc("pauselock", "PauseLockGen", {"cfg_text": GEN_CFG % c}, workers=4, scratch=sc,
                                              timeout=2400, heap="12g"))
+        # vacuity guard: action coverage is measured on a sub-configuration (one script of the set that
+        # every M run uses, same constants), so every action is taken in the full runs as well
+        jobs.append(lambda: vlib.tlc("pauselock", "PauseLockMC", {"cfg_text": MC_CFG % dict(nl=2, cap=2, rounds=1, bug="FALSE", scripts="MCScriptsCov")},
+                                     coverage=True, workers=2, scratch=sc, timeout=900))
         res = _par(jobs)
+        cov = res.pop()
+        vlib.expect_tlc_ok(cov, "PauseLockMC coverage run")
+        vlib.require(not cov.violation, "coverage run: %s" % cov.violation)
+        for a in ACTIONS:
+            vlib.require(cov.coverage.get(a, (0, 0))[0] > 0, "vacuous: action %s never taken" % a)
+        run.add_tlc(cov, "PauseLockMC coverage (1 script)")
         for (label, c), r in zip(mcs, res):
             vlib.expect_tlc_ok(r, label)
             if r.violation:
                 raise vlib.MachineryError("%s: the design violates %s (spec error, not a code verdict)\n%s" %
                                           (label, r.violation, "\n".join(r.cex[:60])))
-            for a in ACTIONS:
-                vlib.require(r.coverage.get(a, (0, 0))[0] > 0, "%s vacuous: action %s never taken" % (label, a))
             run.add_tlc(r, label)
         neg = res[len(mcs)]
         vlib.require(neg.violation == "Unaltered", "negative model run (IPv6 buffered with the IPv4 flag) did not violate Unaltered: %s %s"
@@ -178,6 +185,14 @@ def main():
 
         # ---- F
         summ, bad = replay_behaviours(run, vh, behs, run.seed, "F")
+        # a time-out of the harness' waits on a busy machine must not become a verdict: schedules that
+        # failed with "stuck" are executed once more, alone
+        again = [o for o in bad if o["desc"].get("cls") == "stuck"]
+        if again:
+            _, bad_again = replay_behaviours(run, vh, [o["behaviour"] for o in again], run.seed, "F (stuck schedules again)")
+            still = set(schedule_key(o["behaviour"]) for o in bad_again)
+            bad = [o for o in bad if o["desc"].get("cls") != "stuck" or schedule_key(o["behaviour"]) in still]
+            run.note("%d schedule(s) timed out in the first pass, %d again when run alone" % (len(again), len(bad_again)))
         run.count(summ["steps"])
         run.cov["traces_validated_against_impl"] += len(behs)
         for b in behs:
@@ -231,7 +246,7 @@ def drive_and_validate(run, vh, sc, thorough):
     if not os.path.exists(os.path.join(vlib.SPEC, "pauselock", "PauseLockTrace.tla")):
         run.note("binding B not built")
         return
-    traces, packets, calls = (40, 60, 14) if thorough else (10, 40, 10)
+    traces, packets, calls = (30, 60, 12) if thorough else (8, 30, 6)
     tfile = os.path.join(sc, "trace.ndjson")
     with open(tfile, "w") as fh:
         p = subprocess.run([vh, "pauselock-drive", "-seed", str(run.seed), "-traces", str(traces), "-packets", str(packets),
@@ -255,11 +270,12 @@ def drive_and_validate(run, vh, sc, thorough):
     run.count(len(lines))
     run.cov["trace_events"] = len(lines)
     nbuf = sum(1 for e in evs if e.get("ev") == "Take" and e.get("paused"))
-    run.cov["packets_taken_while_paused_in_traces"] = nbuf
-    vlib.require(nbuf > 0, "racing driver never delivered a packet during a pause")
-    if t.violation == "NotFinished":
+    run.cov["packets_taken_during_a_call_in_traces"] = nbuf
+    vlib.require(nbuf > 0, "racing driver never delivered a packet while a lock holder call was in progress")
+    cmd = "vh pauselock-drive -seed %d -traces %d -packets %d -calls %d" % (run.seed, traces, packets, calls)
+    if t.violation is None:
         run.cov["traces_validated_against_impl"] += traces
-        run.sample({"kind": "implementation trace event", "event": evs[len(evs) // 2]})
+        run.sample({"kind": "implementation trace event", "event": [e for e in evs if e.get("ev") == "End" and e.get("rows")][:1]})
         # negative control: one packet counter of a logged result changed
         idx = [i for i, e in enumerate(evs) if e.get("ev") == "End" and e.get("rows")]
         vlib.require(idx, "racing driver logged no non-empty call result")
@@ -270,18 +286,20 @@ def drive_and_validate(run, vh, sc, thorough):
         bad[i] = json.dumps(e)
         n = vlib.tlc("pauselock", "PauseLockTrace", "PauseLockTrace.cfg", workers=1, files={"trace.ndjson": "\n".join(bad) + "\n"},
                      scratch=sc, timeout=2400, heap="12g")
-        vlib.require(n.violation != "NotFinished" and not n.error, "negative control: corrupted trace was accepted (%s %s)" % (n.violation, n.error))
+        vlib.require(n.violation == "postcondition" and not n.error,
+                     "negative control: corrupted trace was accepted (%s %s)" % (n.violation, n.error))
         run.cov["negative_control_trace"] = "packet counter of a logged %s result +1 at event %d: rejected" % (e.get("k"), i + 1)
     else:
-        vlib.require(t.violation is None, "PauseLockTrace: unexpected %s" % t.violation)
-        # TLC explored every way to explain the log and none reaches its end
+        vlib.require(t.violation == "postcondition", "PauseLockTrace: unexpected %s" % t.violation)
+        # TLC explored every way to explain the log; the best explanation ends before event `last`
         last = max([m.get("line", 0) for m in t.infos if isinstance(m, dict)] or [0])
         ev = evs[last] if last < len(evs) else None
+        tr = (ev or {}).get("tr")
         desc = {"binding": "B", "cls": "trace-rejected", "ev": (ev or {}).get("ev"), "kind": (ev or {}).get("k"),
                 "buffered_v6": any(e.get("ev") == "Take" and e.get("paused") and e.get("ver") == 6 for e in evs[:last + 1]
-                                   if e.get("tr") == (ev or {}).get("tr"))}
-        run.violation(desc, {"kind": "pauselock-trace", "seed": run.seed, "first_unexplained_event": ev, "line": last + 1,
-                             "cmd": "vh pauselock-drive -seed %d -traces %d -packets %d -calls %d" % (run.seed, traces, packets, calls)})
+                                   if e.get("tr") == tr)}
+        run.violation(desc, {"kind": "pauselock-trace", "seed": run.seed, "first_unexplained_event": ev, "line": last + 1, "cmd": cmd,
+                             "note": "the interleaving of a racing run is not reproducible; re-running the command gives another log"})
 
 
 def replay(path):
